@@ -56,6 +56,14 @@
 //	   is collected when the name is undesired is not stated by the property, so
 //	   for that pair only "never deleted while the name is desired" is asserted
 //	   and the pair is left out of the set equation.
+//
+//	M7 Observation reads a referenced resource from the cached reader and, on
+//	   NotFound, again from the live one ("Try again without the cache"). Only
+//	   NotFound from BOTH means "no longer exists"; any other error of either read
+//	   is a failed observation and falls under the no-mutation clause. The check
+//	   therefore injects the observe error on the first read or on the live
+//	   fallback read, the latter both for resources the cache has not seen yet
+//	   (CacheLag, verifsim.LagHideNew) and for resources that are really gone.
 package c03
 
 import (
@@ -149,6 +157,13 @@ type scenario struct {
 	Fixed        map[string]string `json:"fixed,omitempty"` // name -> explicit metadata.name set by the function
 	Perturb      map[string]string `json:"perturb"`         // name -> perturbation applied before the reconcile under test
 	ObserveFault string            `json:"observeFault,omitempty"`
+	// ObserveFaultLive asks for the error to hit the LIVE fallback read that follows a cache miss (NotFound from
+	// the cached reader) instead of the first read; ObserveFaultErr is server (default) | timeout | conflict.
+	ObserveFaultLive bool   `json:"observeFaultLive,omitempty"`
+	ObserveFaultErr  string `json:"observeFaultErr,omitempty"`
+	// CacheLag gives the reconciler distinct clients (M7): the cached one has not yet seen composed
+	// resources that were written exactly once, the uncached one (same Run) reads the live store.
+	CacheLag bool `json:"cacheLag,omitempty"`
 	// Perturbations of spec.resourceRefs itself (M6). DupRef: the reference to this resource appears twice
 	// (the list is atomic, the API server admits duplicates). Twin: a second, distinct object controlled by
 	// the XR and carrying the same composition-resource-name annotation exists and is referenced too.
@@ -185,6 +200,7 @@ type verdict struct {
 	ExpectDel  map[string]bool
 	CallBudget map[int]int // step -> number of calls the protocol makes (for the boundedness check)
 	WeakPair   string      // pipeline mode: name whose two objects are left out of the set equation (M6)
+	FaultClass string      // filled in after the run, for labels only: which observation read the injected error hit
 }
 
 const twinSuffix = "+twin"
@@ -473,6 +489,8 @@ type world struct {
 	byName map[string]verifsim.Key // objects the XR composed in the good phase (M1)
 	byKey  map[verifsim.Key]string
 	decoys map[verifsim.Key]bool
+	// which read the injected observe error hit in the last reconcile (labels only)
+	faultClass string
 	// content of each composed object right after the good phase
 	origContent map[string]verifsim.Obj
 }
@@ -643,15 +661,31 @@ func setup(sc scenario) (*world, string) {
 // reconcileUnderTest runs the one reconcile the oracle judges and returns the part of the write log it produced.
 func (w *world) reconcileUnderTest() ([]verifsim.Write, error, string) {
 	env := w.env
+	reconcile := func(plan map[int]verifsim.Fault) (*verifsim.Run, error) {
+		utilrand.Seed(w.sc.Seed + 1)
+		w.runner.calls = map[int]int{}
+		w.runner.runaway = ""
+		run := env.Sim.NewRun("xr-controller", plan)
+		if !w.sc.CacheLag {
+			_, err := env.Reconcile(run, xrName)
+			return run, err
+		}
+		cached := run.StaleClient(func(k verifsim.Key) int {
+			if k.Group == "example.org" && composedKind(k.Kind) {
+				return verifsim.LagHideNew
+			}
+			return 0
+		})
+		_, err := env.ReconcileWith(cached, run.Client(), xrName)
+		return run, err
+	}
 	var plan map[int]verifsim.Fault
+	w.faultClass = ""
 	if n := w.sc.ObserveFault; n != "" {
 		// Learn the index of the API call that observes the chosen reference, then rewind.
 		want := "get " + w.byName[n].String()
 		snap := env.Sim.Snapshot()
-		utilrand.Seed(w.sc.Seed + 1)
-		w.runner.calls = map[int]int{}
-		probe := env.Sim.NewRun("xr-controller", nil)
-		_, _ = env.Reconcile(probe, xrName)
+		probe, _ := reconcile(nil)
 		env.Sim.Restore(snap)
 		idx := -1
 		for i, c := range probe.Calls {
@@ -670,15 +704,26 @@ func (w *world) reconcileUnderTest() ([]verifsim.Write, error, string) {
 			return nil, nil, fmt.Sprintf("harness: the reconcile never reads the referenced resource %s (calls: %v)", want, probe.Calls)
 		}
 		if idx >= 0 {
-			plan = map[int]verifsim.Fault{idx: {Kind: verifsim.ErrBefore, Err: "server"}}
+			w.faultClass = "first-read-fault"
+			// The same key read again by the very next API call is the live fallback after a cache miss (M7).
+			fallback := idx+1 < len(probe.Calls) && probe.Calls[idx+1] == want
+			if w.sc.ObserveFaultLive && fallback {
+				idx++
+				w.faultClass = "cache-miss+live-read-fault"
+				if w.sc.Perturb[n] == pMissing {
+					w.faultClass = "really-gone+live-read-fault"
+				}
+			}
+			kind := w.sc.ObserveFaultErr
+			if kind == "" {
+				kind = "server"
+			}
+			w.faultClass += "(" + kind + ")"
+			plan = map[int]verifsim.Fault{idx: {Kind: verifsim.ErrBefore, Err: kind}}
 		}
 	}
-	utilrand.Seed(w.sc.Seed + 1)
-	w.runner.calls = map[int]int{}
-	w.runner.runaway = ""
 	start := env.Sim.LogLen()
-	run := env.Sim.NewRun("xr-controller", plan)
-	_, err := env.Reconcile(run, xrName)
+	_, err := reconcile(plan)
 	return env.Sim.Log()[start:], err, ""
 }
 
@@ -716,6 +761,7 @@ func judge(sc scenario) (verdict, []string) {
 		return v, []string{bad}
 	}
 	out := w.judgeOnce(v)
+	v.FaultClass = w.faultClass
 	if sc.Pipeline && v.Fails && len(out) == 0 {
 		// History: the same failure again on the next reconcile (the first one only touched XR status).
 		for _, m := range w.judgeOnce(v) {
@@ -899,8 +945,14 @@ func genScenario() *rapid.Generator[scenario] {
 				sc.TwinFront = rapid.Bool().Draw(t, "twinfront")
 			}
 		}
-		if len(sc.Good) > 0 && rapid.IntRange(0, 7).Draw(t, "observefault") == 0 {
+		sc.CacheLag = rapid.IntRange(0, 2).Draw(t, "cachelag") == 0
+		if len(sc.Good) > 0 && rapid.IntRange(0, 5).Draw(t, "observefault") == 0 {
 			sc.ObserveFault = rapid.SampledFrom(sc.Good).Draw(t, "faultref")
+			sc.ObserveFaultLive = rapid.IntRange(0, 2).Draw(t, "faultlive") > 0
+			sc.ObserveFaultErr = rapid.SampledFrom([]string{"server", "timeout", "conflict"}).Draw(t, "faulterr")
+			if sc.ObserveFaultLive && rapid.Bool().Draw(t, "forcelag") {
+				sc.CacheLag = true
+			}
 		}
 		if !sc.Pipeline {
 			for i := 0; i < poolSize; i++ {
@@ -1038,6 +1090,15 @@ func classify(rec *verifkit.Recorder, sc scenario, v verdict) {
 	mode := "pt"
 	if sc.Pipeline {
 		mode = "pipeline"
+	}
+	if sc.CacheLag {
+		rec.Label("cache-lag(" + mode + ")")
+	}
+	if v.FaultClass != "" {
+		rec.Labelf("observe:%s,%s", v.FaultClass, mode)
+		if strings.Contains(v.FaultClass, "live-read-fault") {
+			rec.Label("observe:ANY-live-read-fault-after-cached-NotFound," + mode)
+		}
 	}
 	still := func(n string) string {
 		if v.Fails && sc.Pipeline {
@@ -1201,6 +1262,10 @@ func TestVerifC03Pinned(t *testing.T) {
 		{name: "pipeline duplicated reference, undesired", sc: scenario{Pipeline: true, Good: []string{"r0", "r1"}, Perturb: all, DupRef: "r1", DupFront: true, Steps: []stepSpec{{Ops: add("r0")}}}, expectDel: "r1"},
 		{name: "pipeline two objects with the same name, still desired", sc: scenario{Pipeline: true, Good: []string{"r0", "r1"}, Perturb: all, Twin: "r0", Steps: []stepSpec{{KeepObserved: true, Ops: []op{{Op: "drop", A: "r1"}}}}}, expectDel: "r1"},
 		{name: "pipeline fatal with duplicated and twin references", sc: scenario{Pipeline: true, Good: []string{"r0", "r1"}, Perturb: all, DupRef: "r0", Twin: "r1", Steps: []stepSpec{{Ops: add("r2")}, {Fail: "fatal"}}}, fails: true},
+		{name: "cache has not seen the resource yet, live read fails", sc: scenario{Pipeline: true, Good: []string{"r0", "r1"}, Perturb: all, CacheLag: true, ObserveFault: "r1", ObserveFaultLive: true, ObserveFaultErr: "timeout", Steps: []stepSpec{{Ops: add("r0", "r3")}}}, fails: true},
+		{name: "resource really gone, live read fails", sc: scenario{Pipeline: true, Good: []string{"r0", "r1"}, Perturb: map[string]string{"r0": pMissing, "r1": pPresent}, ObserveFault: "r0", ObserveFaultLive: true, Steps: []stepSpec{{Ops: add("r0", "r3")}}}, fails: true},
+		{name: "cache lag only, nothing fails", sc: scenario{Pipeline: true, Good: []string{"r0", "r1"}, Perturb: all, CacheLag: true, Steps: []stepSpec{{Ops: add("r0")}}}, expectDel: "r1"},
+		{name: "P&T cache lag, template removed", sc: scenario{Good: []string{"r0", "r1"}, Perturb: all, CacheLag: true, Templates: []string{"r1"}}, expectDel: "r0"},
 		{name: "P&T foreign-controlled without template", sc: scenario{Good: []string{"r0", "r1"}, Perturb: map[string]string{"r0": pForeign, "r1": pPresent}, Templates: []string{"r1"}}, fails: true},
 	}
 	for i, row := range rows {
@@ -1217,5 +1282,54 @@ func TestVerifC03Pinned(t *testing.T) {
 		if len(bad) > 0 {
 			t.Fatalf("C03 violated in pinned row %q:\n  %s\nscenario: %s", row.name, strings.Join(bad, "\n  "), verifkit.JSON(row.sc))
 		}
+	}
+}
+
+// TestVerifC03ObserveSweep enumerates, without randomness, the failed-observation class: composer mode x
+// coherent/lagging cache x perturbation pattern x referenced resource x {first read, live fallback read} x
+// {server error, timeout, conflict}. Every pipeline case must write nothing (M7).
+func TestVerifC03ObserveSweep(t *testing.T) {
+	rec := verifkit.New(t, "C03", "exhaustive: mode x cache lag x 5 perturbation patterns of r0,r1,r2 x faulted reference x {first read, live fallback read} x {server,timeout,conflict}; the script drops r1, keeps r0,r2 and adds r3")
+	patterns := []map[string]string{
+		{"r0": pPresent, "r1": pPresent, "r2": pPresent},
+		{"r0": pMissing, "r1": pPresent, "r2": pTerminating},
+		{"r0": pPresent, "r1": pMissing, "r2": pUncontrolled},
+		{"r0": pUncontrolled, "r1": pTerminating, "r2": pMissing},
+		{"r0": pPresent, "r1": pForeign, "r2": pPresent},
+	}
+	live := 0
+	for _, pipeline := range []bool{true, false} {
+		for _, lag := range []bool{false, true} {
+			for pi, pat := range patterns {
+				for _, target := range []string{"r0", "r1", "r2"} {
+					for _, onLive := range []bool{false, true} {
+						for _, kind := range []string{"server", "timeout", "conflict"} {
+							sc := scenario{Pipeline: pipeline, Good: []string{"r0", "r1", "r2"}, Perturb: pat, CacheLag: lag,
+								ObserveFault: target, ObserveFaultLive: onLive, ObserveFaultErr: kind, Seed: int64(500 + pi)}
+							if pipeline {
+								sc.Steps = []stepSpec{{Ops: []op{{Op: "add", A: "r0"}, {Op: "add", A: "r2"}, {Op: "add", A: "r3"}}}, {Result: "normal"}}
+							} else {
+								sc.Templates = []string{"r0", "r2", "r3"}
+							}
+							rec.Eval()
+							v, bad := judge(sc)
+							if !v.Fails {
+								t.Fatalf("harness: interpreter does not predict a failure for %s", verifkit.JSON(sc))
+							}
+							classify(rec, sc, v)
+							if strings.Contains(v.FaultClass, "live-read-fault") {
+								live++
+							}
+							if len(bad) > 0 {
+								t.Fatalf("C03 violated:\n  %s\nscenario: %s", strings.Join(bad, "\n  "), verifkit.JSON(sc))
+							}
+						}
+					}
+				}
+			}
+		}
+	}
+	if live < 60 {
+		t.Fatalf("harness: only %d cases reached the live fallback read; the sweep is vacuous", live)
 	}
 }
